@@ -244,6 +244,9 @@ func arithS(g *G, bin, un []string, qs bool) {
 					continue
 				}
 				g.emit(mkA(op, c, x, x, 0, "", fresh), op)
+				if op == "dreduce" || op == "reduce" { // into a destination that held a non-finite value
+					g.emit(mkA(op, c, x, x, 0, "", specialDecs[g.R.Intn(len(specialDecs))]), op+"/pre")
+				}
 				if (op == "tointv" || op == "tointx" || op == "quantize") && g.R.Intn(4) == 0 {
 					ct := c
 					ct.T = 16 | 64 // Inexact | Rounded trapped
